@@ -109,12 +109,12 @@ theorem switchToParent_ext (m : M) (st sk d) : Ext m (switchToParent m st sk d) 
   Ext.trans h (switchToParent_ext m0 st sk d)
 
 set_option maxRecDepth 4000 in
-theorem hostCall_ext (m : M) (name args) : Ext m (hostCall m name args) := by
+theorem hostCall_ext (m : M) (name args via) : Ext m (hostCall m name args via) := by
   simp only [hostCall]
   split
   all_goals ext_auto
-@[simp] theorem Ext_hostCall {m m0 : M} (h : R m m0) (name args) : Ext m (hostCall m0 name args) :=
-  Ext.trans h (hostCall_ext m0 name args)
+@[simp] theorem Ext_hostCall {m m0 : M} (h : R m m0) (name args via) : Ext m (hostCall m0 name args via) :=
+  Ext.trans h (hostCall_ext m0 name args via)
 
 
 /-! heap helpers returning pairs / recursive ones -/
